@@ -16,7 +16,7 @@ theorem invd_stepG (p : Prog) (s : St) (h : Inv s) (d : InvData p s) : InvData p
        first
        | assumption
        | (simp_all [stepG, fixed, expBuf2, GPc.rank, TPc.rank,
-           St.stopPatches, St.write, St.appendOutput, St.capture, St.lastCtx, St.content]))
+           St.stopPatches, St.write, St.appendOutput, St.capture, St.lastCtx, St.content] <;> try assumption))
 
 -- T's steps outside student code write nothing
 set_option maxHeartbeats 4000000 in
@@ -26,15 +26,16 @@ theorem invd_stepT_other (p : Prog) (s : St) (c : TChoice) (h : Inv s) (d : InvD
   obtain ⟨hbuf2, hout2v, hreal, haux⟩ := d
   rcases s with ⟨gpc, tpc, claim, pending, tExit, timedOut, patches, stdouts, sysStdout, buf1, buf2, real, raw, out1, out2, ctxs, id1, id2, nextId, exc, feedback, excAtReturn, depthAtReturn, excBeforeNext, e2Escaped⟩
   simp only at hl hstk hpend hctx hbuf2 hout2v hreal haux hrun
-  cases tpc <;> rcases claim with _ | (_ | _) <;>
+  cases tpc <;> rcases claim with _ | (_ | _) <;> cases gpc <;>
     simp [legal, GPc.rank, TPc.rank] at hl hrun <;>
-    (constructor <;>
-      first
-      | assumption
-      | (simp [stepT, fixed, St.stopPatches, St.appendOutput, St.capture]; done)
-      | (cases stdouts <;> simp_all [stepT, fixed, St.stopPatches, St.appendOutput, St.capture, St.content]; done)
-      | (cases patches <;> simp_all [stepT, fixed, St.stopPatches, St.appendOutput, St.capture, St.content]; done)
-      | (cases stdouts <;> cases tExit <;> simp_all [stepT, fixed, St.stopPatches, St.appendOutput, St.capture, St.content]))
+    (simp only [expStacks, Prod.mk.injEq] at hstk
+     obtain ⟨rfl, rfl, rfl⟩ := hstk
+     cases tExit <;>
+     constructor <;>
+       first
+       | assumption
+       | (simp_all [stepT, fixed, expBuf2, GPc.rank, TPc.rank,
+           St.stopPatches, St.write, St.appendOutput, St.capture, St.lastCtx, St.content] <;> try assumption))
 
 -- T's steps in student code: it writes only while no SystemExit is pending and it does not
 -- swallow; by then `sys.stdout` is E1's buffer or the real stdout, never E2's buffer
@@ -55,6 +56,6 @@ theorem invd_stepT_run (p : Prog) (hp : p.swallows = true → p.prints = false) 
      constructor <;>
        first
        | assumption
-       | (simp_all [stepT, fixed, expBuf2, GPc.rank, TPc.rank, St.write]))
+       | (simp_all [stepT, fixed, expBuf2, GPc.rank, TPc.rank, St.write] <;> try assumption))
 
 end Pedal.Timeout
